@@ -942,6 +942,56 @@ pub fn replay_landing(tier: &'static str, d: &Value) -> i32 {
 }
 
 // ----------------------------------------------------------------------------------------------
+// C16: "never for 0, always for 1" refers to the goal bias the planner has NOW. One planner object is
+// driven with bias 0, then its public `goal_bias` field is set to 1, then back to 0 (with and without a
+// `setup` in between); the seams count which sampler every iteration asks.
+
+fn bias_switch_kit<K: Kit>(rep: &mut Report) {
+    let b = base_of(K::NAME);
+    for &pk in &Pk::TREES {
+        for resetup in [false, true] {
+            let sc = b.scenario(b.world_named("goal-sealed", vec![b.seal_goal.clone()]), b.params(pk, 0.6, 1.5, 0.0), &format!("C16/bias-switch/{}/{}/resetup{resetup}", b.kit, pk.name()));
+            let r = crate::explore::guarded(|| {
+                let mut rig = Rig::<K>::new(&sc, true);
+                rig.space.expire_when_exhausted.set(true);
+                let mut phases: Vec<(f64, u64, u64)> = Vec::new();
+                for bias in [0.0, 1.0, 0.0, 1.0] {
+                    rig.drv.set_goal_bias(bias);
+                    if resetup {
+                        let (pd, w) = (rig.pd.clone(), rig.world.clone());
+                        rig.drv.setup(pd, w);
+                    }
+                    // scripts for both samplers, so that an unexpected draw is answered and counted
+                    rig.space.script.borrow_mut().clear();
+                    rig.space.pos.set(0);
+                    rig.space.push_script(&b.sub4.iter().cycle().take(12).cloned().collect::<Vec<u8>>());
+                    // counted from here: RRT-Connect's setup() draws its goal root, which is not an iteration's sample
+                    let (u0, g0) = (rig.space.calls.get() as u64, rig.goal.calls.get() as u64);
+                    oxmpl::verif::clock_reset(1_000_000);
+                    let _ = rig.drv.solve(crate::drv::iters(6));
+                    phases.push((bias, rig.space.calls.get() as u64 - u0, rig.goal.calls.get() as u64 - g0));
+                }
+                phases
+            });
+            match r {
+                Err(_) => rep.engine_error(format!("bias-switch case could not run: {}", sc.tag)),
+                Ok(phases) => {
+                    rep.count("bias_switch_cases", 1);
+                    rep.count("traces_validated", 1);
+                    for (i, (bias, uni, goal)) in phases.iter().enumerate() {
+                        let bad = if *bias <= 0.0 { *goal != 0 } else { *uni != 0 };
+                        if bad {
+                            rep.violate(format!("C16|{}|bias-switch|stale-goal-bias", pk.name()), format!("phase {i}: goal_bias is now {bias} but the planner drew {uni} uniform and {goal} goal samples: it still uses the bias it had before"), || json!({"kind": "bias-switch", "prop": "C16", "scenario": sc.json(), "resetup": resetup, "phases": phases.iter().map(|(b, u, g)| json!({"goal_bias": b, "uniform_draws": u, "goal_draws": g})).collect::<Vec<_>>()}));
+                            break;
+                        }
+                    }
+                }
+            }
+        }
+    }
+}
+
+// ----------------------------------------------------------------------------------------------
 // driver
 
 fn on_caught_for<'a>(prop: &'static str, tier: &'static str, idx: usize, sc: &'a Scenario) -> impl Fn(&[u8], u8, Caught, &mut Report) + Sync + 'a {
@@ -1019,6 +1069,11 @@ pub fn run(prop: &'static str, tier: &'static str) -> i32 {
         }
     }
     if prop == "C16" {
+        for kit in KITS {
+            let mut r = Report::new();
+            with_kit!(kit, bias_switch_kit(&mut r));
+            rep.merge(r);
+        }
         let kits: &[&str] = if tier == "quick" { &["RealVector", "SE2"] } else { &KITS };
         for kit in kits {
             let r = with_kit!(*kit, bias_audit_kit(tier));
@@ -1031,7 +1086,7 @@ pub fn run(prop: &'static str, tier: &'static str) -> i32 {
     }
     let must: Vec<&str> = match prop {
         "C15" => vec!["states_after_success", "states_after_timeout", "edges_checked", "zero_length_edges", "deep_runs", "deadline_landings_checked"],
-        "C16" => vec!["nodes_added", "nothing_added", "bias0_iterations", "bias1_iterations", "connect_direct_goal_hit", "connect_joined_growing_start", "connect_joined_growing_goal", "connect_first_extension_failed", "bias_audit_coin_flips", "deep_transitions"],
+        "C16" => vec!["nodes_added", "nothing_added", "bias0_iterations", "bias1_iterations", "connect_direct_goal_hit", "connect_joined_growing_start", "connect_joined_growing_goal", "connect_first_extension_failed", "bias_audit_coin_flips", "deep_transitions", "bias_switch_cases"],
         "C17" => vec!["rewires", "non_nearest_parent_chosen", "choose_parent_with_alternatives", "versus_paths_compared", "versus_star_strictly_shorter", "versus_seeded_runs", "deep_transitions"],
         _ => vec![],
     };
